@@ -341,6 +341,45 @@ pub fn run(rep: &'static Report) {
     rep.sample(json!({"history":["CliChangePass","CliChangePass"],"fresh":["change-pass salt","change-pass salt"],"given":["salt of the old locked key"],"expect":"all distinct"}));
     rep.sample(json!({"history":["LibKeyEncrypt","CliEncrypt","LibGenerate"],"fresh":["ephemeral key x2","payload key x2","file key x2","private key"]}));
 
+    // long repetitions in one thread (state carried across many invocations: pools, caches, counters)
+    {
+        let fx = &ctx.fx;
+        let reps = rep.tier.pick(150usize, 600);
+        let mut seen: std::collections::HashMap<Vec<u8>, String> = std::collections::HashMap::new();
+        let mut n_vals = 0u64;
+        'outer: for round in 0..reps {
+            for op in [Op::LibGenerate, Op::LibKeyEncrypt, Op::LibGenerate] {
+                rep.eval(1);
+                match exec(fx, op) {
+                    Err(e) => {
+                        rep.violation("repetition/op-failed", json!({"kind":"repetition","round":round}), e);
+                        break 'outer;
+                    }
+                    Ok(vals) => {
+                        for (k, v) in vals {
+                            n_vals += 1;
+                            let label = format!("round {} {:?}: {}", round, op, k);
+                            if let Some(prev) = seen.insert(v.clone(), label.clone()) {
+                                rep.violation(
+                                    "repetition/value-repeats",
+                                    json!({"kind":"repetition","round":round,"op":format!("{:?}", op)}),
+                                    format!("after {} repeated invocations in one thread a fresh value repeats: [{}] == [{}] = {}", round, prev, label, hx(&v)),
+                                );
+                                break 'outer;
+                            }
+                            if fx.given.iter().any(|g| g.1 == v) {
+                                rep.violation("repetition/equals-given", json!({"kind":"repetition","round":round}), format!("[{}] equals a given value", label));
+                                break 'outer;
+                            }
+                        }
+                    }
+                }
+            }
+        }
+        rep.extra("long_repetition", json!({"rounds":reps,"ops_per_round":3,"fresh_values_compared":n_vals}));
+        rep.nontrivial(b"long-repetition");
+    }
+
     seam_check(rep, &ctx.fx);
 
     // per file
@@ -384,6 +423,10 @@ pub fn replay(rep: &'static Report, case: &Value) {
             }
         }
         "seam" => seam_check(rep, &Fixture::new(rep.seed)),
+        "repetition" => {
+            println!("  re-running C07 (the repetition part is deterministic in its verdict)");
+            run(rep);
+        }
         "nonce" => {
             let g = |k: &str| unhx(case[k].as_str().unwrap());
             let sizes: Vec<usize> = case["sizes"].as_array().unwrap().iter().map(|v| v.as_u64().unwrap() as usize).collect();
